@@ -26,7 +26,7 @@ func init() {
 		&Rule{ID: "PN-CONSTINDEX", Doc: "a slice indexed or sliced with a constant is first proved long enough", Run: rulePNConstIndex, Min: 2},
 		&Rule{ID: "PN-CLOSE", Doc: "no channel can be closed twice (explicit close next to a deferred close, close inside a loop)", Run: rulePNClose, Min: 1},
 		&Rule{ID: "PN-DIV", Doc: "integer division by a non-constant divisor is guarded by a zero test", Run: rulePNDiv, Min: 1},
-		&Rule{ID: "PN-EXPLICIT", Doc: "explicit panic calls reachable from token entry points are discharged by a named totality argument", Run: rulePNExplicit, Min: 2},
+		&Rule{ID: "PN-EXPLICIT", Doc: "explicit panic calls reachable from token entry points are discharged by a named totality argument", Run: rulePNExplicit, Min: 1},
 	)
 }
 
@@ -168,6 +168,11 @@ func rulePNHash(p *Prog, r *Reporter) {
 				}
 				n++
 				construct := what + " " + shortType(mt)
+				if mi := p.memberIdx(); mi != nil && mi.sound && (fn == mi.add || fn == mi.has || fn == mi.ctor) {
+					// the only keys are those of the index's key function: a comparable term kind boxed as itself, or a string
+					r.OK(p.instrPos(in), name, construct, "keys come from the checked key function (comparable kinds and strings only)")
+					continue
+				}
 				if h, w := p.hashHazard(mt.Key(), 0); h {
 					r.Bad(p.instrPos(in), name, construct, "map key may be unhashable at run time (panic 'hash of unhashable type', not recoverable on a library goroutine): "+w)
 				} else {
@@ -1384,6 +1389,40 @@ func rulePNOptPtr(p *Prog, r *Reporter) {
 			for _, in := range b.Instrs {
 				u, ok := in.(*ssa.UnOp)
 				if !ok || u.Op != token.MUL {
+					continue
+				}
+				// u = *f(...) where f hands out one of those optional pointers
+				if cv, isCall := u.X.(*ssa.Call); isCall {
+					cal := cv.Call.StaticCallee()
+					pt, isPtr := cv.Type().Underlying().(*types.Pointer)
+					if cal == nil || !isPtr || !p.isRepoFunc(cal) || cal.Blocks == nil {
+						continue
+					}
+					if _, isBasic := pt.Elem().Underlying().(*types.Basic); !isBasic {
+						continue
+					}
+					fresh := true
+					for _, ret := range returnsOf(cal) {
+						if _, isA := unwrap(retVal(ret, 0)).(*ssa.Alloc); !isA {
+							fresh = false
+						}
+					}
+					if fresh {
+						continue
+					}
+					okG := false
+					for _, g := range guardsOf(b) {
+						if bo, isB := g.cond.(*ssa.BinOp); isB && (isNilConst(bo.X) || isNilConst(bo.Y)) && ((bo.Op == token.NEQ) == g.val) {
+							x := bo.X
+							if isNilConst(x) {
+								x = bo.Y
+							}
+							if x == ssa.Value(cv) || p.D(x) == p.D(cv) {
+								okG = true
+							}
+						}
+					}
+					r.Check(okG, p.instrPos(u), name, "dereference of "+cal.Name()+"()", "under a nil test of the returned pointer", "the optional pointer returned by "+p.FuncName(cal)+" is dereferenced without a nil test: when the field was never set (the sender decides) this is a nil-pointer panic instead of the error the caller expects")
 					continue
 				}
 				// u = *ptr ; ptr = *(&x.f)
